@@ -42,20 +42,27 @@ TABLE = {
             "Open findings: positional lists and array-valued options have no syntax; an empty list drops its key "
             "(pinned by the test suite). CPython's float repr is a contract boundary (LawfulFmt)."),
     "C14": (True,
-            "Theorems over data REGENERATED from /repo on every run by harness/translate.py (GenProps/C14.lean, kernel "
-            "evaluation): the serialised ATNs embedded in blackbirdLexer.py, blackbirdLexer.cpp and both "
-            "blackbirdLexer.interp files are identical integer for integer, likewise the four parser ATNs; the .tokens "
-            "files are identical to each other and to the vocabulary the grammar prescribes; rule names, symbolic and "
-            "literal names of both targets and the .interp files are the grammar's; the lexer rules (as regular "
-            "expressions, with fragments inlined, order and skip flags) and parser rules read from src/blackbird.g4 are "
-            "exactly the model's. Static theorems (Props/C14.lean): the model lexer takes the longest match over all "
-            "rules with the earliest rule winning ties (fold invariant), the catch-all rule is last, 61 token kinds. "
-            "Partial: that ANTLR's ATN recognises the grammar's language is not proved from the ATN; it is checked by "
-            "the shipped lexer vs a reference lexer interpreting the current grammar on boundary-adversarial strings and "
-            "the shipped parser vs an Earley recogniser on all short token sequences, random sentences and mutations.",
-            "Lean 4 proof over regenerated data (translator) + lexer/parser differential", "DESIGN.md 7 (C14)",
-            "Translator harness/translate.py and grammar reader harness/g4.py are trusted readers, validated on every "
-            "run (re-rendered grammar equals the source; extracted ATN equals what the module hands the runtime)."),
+            "Theorems over data REGENERATED from /repo on every run by harness/translate.py (GenProps/C14.lean, "
+            "GenProps/C14ATN.lean; kernel evaluation): the serialised ATNs embedded in blackbirdLexer.py, "
+            "blackbirdLexer.cpp and both blackbirdLexer.interp files are identical integer for integer, likewise the "
+            "four parser ATNs; the .tokens files are identical to each other and to the vocabulary the grammar "
+            "prescribes; rule names, symbolic and literal names of both targets and the .interp files are the grammar's; "
+            "the lexer rules (as regular expressions, fragments inlined, order and skip flags) and parser rules read "
+            "from src/blackbird.g4 are exactly the model's. GRAMMAR TO AUTOMATON, LEXER (C14_lexer_rule_language): the "
+            "shipped lexer ATN decodes (format v3), and for each of the 65 lexer rules the sub-automaton between the "
+            "rule's start and stop state accepts exactly the words the grammar's regular expression matches - proved by "
+            "a bisimulation certificate per rule whose checker is proved sound in Lean (Lemmas/Bisim.lean: derivatives "
+            "vs configuration sets, one representative code point per character class) and which the kernel re-checks "
+            "on every regeneration. Static theorems (Props/C14.lean): the model lexer takes the longest match over all "
+            "rules, earliest rule on ties; what a rule contributes is the longest prefix in its language; 61 token "
+            "kinds. Partial: the parser ATN's language and the ~6000 lines of generated recursive-descent code around "
+            "the ATNs are compared with the grammar differentially only (shipped parser vs an Earley recogniser on all "
+            "token sequences up to 5/7 tokens, random sentences, mutations; shipped lexer vs a reference lexer).",
+            "Lean 4 proof over regenerated data (translator + certificate checker proved sound) + lexer/parser differential",
+            "DESIGN.md 7 (C14)",
+            "Trusted readers: harness/translate.py, harness/g4.py (validated each run). The ATN decoder and the "
+            "configuration semantics (Blackbird/ATN.lean, ATNSem.lean) are my specification of ANTLR's format and of "
+            "LexerATNSimulator; the certificate generator Tools/MkATNCert.lean is NOT trusted (its output is re-checked)."),
     "C15": (True,
             "Theorems (Props/C15.lean): a registered p-array is delivered as its name positionally and by keyword, "
             "other variables by value; declaring an array named p<digits> in a tdm program registers the name and "
